@@ -215,6 +215,7 @@ def run(F, chk):
         else:
             re_.violation(key, b.where(bi), "http.active_requests is incremented on a path that never sets request_counted: the matching -1 is skipped and the gauge drifts upward")
     tracking_wipe_rule(F, chk)
+    timer_cache_rule(F, chk)
 
 
 def tracking_wipe_rule(F, chk):
@@ -262,3 +263,57 @@ def tracking_wipe_rule(F, chk):
 def run_thorough(F, chk):
     import witness
     witness.apply(chk, "R-C16-d-w", "ClusterIpTrackingIsPrivate", "compile_fail witness: SessionManager tracking maps are private across crates")
+
+
+def timer_cache_rule(F, chk):
+    """R-C16-g: sessions are reclaimed by timeouts, and the worker only polls the timer when Timer::next_poll_date() says a
+    timeout is due; that date is the minimum of the per-slot caches `next_tick`.  poll_to may discard a slot's cache
+    (next_tick = TICK_MAX) only when the slot is empty (`next == EMPTY`) or when it is starting to walk the slot from its
+    head (`curr == head`, the walk recomputes the cache).  Discarding it merely because the cursor entered the slot hides
+    the slot's pending timeouts from the next wake-up: an idle session is then not reclaimed within its timeout."""
+    r = chk.rule("R-C16-g", "T5", "the timer wheel forgets a slot's cached wake-up only for an empty slot or at the start of its walk", floor=2)
+    cands = [p for p in F.paths() if p.startswith("sozu_lib::timer::Timer") and p.endswith("::poll_to")]
+    if not r.require(cands, "Timer::poll_to not found"):
+        return
+    b = F.body(cands[0])
+    r.fn(b.path)
+    resets = []
+    for bi, si, st in b.stmts():
+        lhs = st.get("lhs")
+        if isinstance(lhs, dict) and proj_fields(lhs) and proj_fields(lhs)[-1][2] == "next_tick" and st["rv"]["k"] == "use" and "TICK_MAX" in str(st["rv"]["a"].get("c", "")) + str(st["rv"]["a"].get("constdef", "")):
+            resets.append((bi, si))
+    # the cursor moves into a slot by `self.next = wheel[slot].head`; a test of `next` only speaks about THAT slot if it
+    # is made after this assignment
+    moved = [bi for bi, si, st in b.stmts() if isinstance(st.get("lhs"), dict) and proj_fields(st["lhs"]) and proj_fields(st["lhs"])[-1][2] == "next"]
+    def about_slot(sb, fl):
+        return "head" in fl or ("next" in fl and any(b.dominates(w, sb) for w in moved))
+    def operand_field(op):
+        """the struct field whose VALUE the operand is (through refs / copies), or None"""
+        l = lib.value_root(b, op_local(op)) if op_local(op) is not None else None
+        pl = op_place(op) if l is None else None
+        if l is not None:
+            d = b.single_def(l)
+            if d and d[2] == "assign" and d[3]["k"] in ("use", "ref") :
+                pl = op_place(d[3]["a"]) if d[3]["k"] == "use" else d[3]["pl"]
+        fs = proj_fields(pl) if isinstance(pl, dict) else []
+        return fs[-1][2] if fs else None
+    def eq_true(sb, truth, atom):
+        if atom[0] == "call" and atom[1].endswith(("PartialEq>::eq", "PartialEq::eq")):
+            fl = {operand_field(a_) for a_ in atom[2]["args"]} - {None}
+            return truth is True and about_slot(sb, fl)
+        return False
+    edges = lib.edges_where(b, eq_true)
+    for sb, f, t, atom in guards.bool_switches(b):
+        if atom[0] == "cmp":
+            for tgt in (f, t):
+                rel = lib.relation_on_edge(b, sb, tgt)
+                if rel and rel[0] == "Eq" and about_slot(sb, {operand_field(rel[3][2]), operand_field(rel[3][3])} - {None}):
+                    edges.append((sb, tgt))
+    if not r.require(resets, "poll_to: no reset of a slot's next_tick found"):
+        return
+    for i, (bi, si) in enumerate(resets):
+        key = "%s|next_tick reset#%d" % (b.path, i)
+        if edges and lib.guarded_by(b, bi, edges):
+            r.ok(key, b.where(bi, si), "behind `next == EMPTY` / `curr == head`")
+        else:
+            r.violation(key, b.where(bi, si), "a slot's cached next_tick is discarded unconditionally: when poll_to stops right after entering that slot its pending timeouts are invisible to next_tick()/next_poll_date(), no wake-up is scheduled and the sessions waiting on them are not reclaimed")
